@@ -8,6 +8,10 @@ Local Open Scope string_scope.
 Definition holder_of (O : oracles) (input : json) : out holder :=
   dO h0 <- holder_presentation O (jstr_or_empty (jget "token" input));
   let h1 := fold_left holder_redact (jstrs (jget "redact" input)) h0 in
+  (* an earlier key_binding call on the same Holder: the last call counts *)
+  let h1 := match jget "kb_first" input with
+            | JObj _ as f => holder_key_binding h1 (jstr_or_empty (jget "aud" f)) (jget "alg" f)
+            | _ => h1 end in
   match jget "kb" input with
   | JObj _ as kb => Val (holder_key_binding h1 (jstr_or_empty (jget "aud" kb)) (jget "alg" kb))
   | _ => Val h1 end.
